@@ -50,10 +50,14 @@ NextM2 == \E k1 \in 1..NMF, k2 \in 1..NMF, m1 \in BOOLEAN, m2 \in BOOLEAN, tag \
             /\ Sel(k1 * 5 + k2 + tag)
             /\ c' = <<k1, k2, m1, m2, tag>>
             /\ Emit("M2", FlowModEl("m", 0, <<f, g>>, <<Goto("g", tag)>>, tag), <<f, g>>)
-NextMR == \E idx \in 0..15, f \in {0, 5, 31}, w \in {1, 8, 32}, tag \in Tags :
-            /\ f + w <= 32
-            /\ c' = <<idx, f, w, tag>>
-            /\ LET r == RegField("f1", idx, tag, f, f + w - 1) IN Emit("MR", FlowModEl("m", 0, <<r>>, <<>>, tag), <<r>>)
+NextMR == \/ \E idx \in 0..15, f \in {0, 5, 31}, w \in {1, 8, 32}, tag \in Tags :
+               /\ f + w <= 32
+               /\ c' = <<idx, f, w, tag>>
+               /\ LET r == RegField("f1", idx, tag, f, f + w - 1) IN Emit("MR", FlowModEl("m", 0, <<r>>, <<>>, tag), <<r>>)
+          \/ \E idx \in 0..7, len \in {4, 8, 12, 64, 124}, masked \in BOOLEAN, tag \in Tags :      \* tunnel metadata: variable length, with a following field
+               /\ (masked => len <= 64)
+               /\ c' = <<"tun", idx, len, masked, tag>>
+               /\ LET r == TunMetaEl("f1", idx, len, masked, tag) IN Emit("MR", FlowModEl("m", 0, <<r, MF("f2", 1, tag, FALSE)>>, <<>>, tag), <<r>>)
 InstrOf(kind, n, tag) ==
   CASE kind = "goto" -> Goto(n, tag) [] kind = "meta" -> WriteMeta(n, tag)
     [] kind = "apply0" -> InstrActs(n, "apply", <<>>)
@@ -133,6 +137,11 @@ NextN == \E tag \in Tags :
                 /\ c' = <<parts, tag>>
                 /\ LET nat == NatEl("a1", parts, tag) IN
                    Emit("N", ActSeqIn("ct", "m", <<nat>>, tag), <<nat>>)
+           \/ \E l \in 1..3 : \E calls \in [1..l -> {"SetSNAT", "SetDNAT", "SetPersistent", "SetProtoHash", "SetRandom"}] :
+                /\ c' = <<"natflags", calls, tag>>
+                /\ LET nat == NatFlagsEl("a1", calls, tag) IN Emit("N", ActSeqIn("ct", "m", <<nat>>, tag), <<nat>>)
+           \/ /\ c' = <<"ctforce", tag>>
+              /\ LET ct == CtForceEl("a1", <<LeafAct("k1", "nat44", tag)>>, tag) IN Emit("N", ActSeqIn("apply", "m", <<ct>>, tag), <<ct>>)
            \/ \E len \in 0..17 :
                 /\ c' = <<"note", len, tag>>
                 /\ LET a == NoteEl("a1", len, tag) IN Emit("N", ActSeqIn("apply", "m", <<a, LeafAct("a2", "group", tag)>>, tag), <<a>>)
